@@ -92,6 +92,8 @@ impl Options {
 pub fn do_compaction(opts: &Options) -> crate::Result<()> {
     #[cfg(feature = "verif_hooks")]
     crate::verif::yield_point("compact:enter");
+    #[cfg(feature = "verif_hooks")]
+    crate::verif::wait_until("vh:blocked", || crate::verif::can_write(&*opts.version_history));
 
     #[expect(clippy::expect_used, reason = "lock is expected to not be poisoned")]
     let compaction_state = opts.compaction_state.lock().expect("lock is poisoned");
@@ -514,6 +516,8 @@ fn merge_tables(
 
     #[cfg(feature = "verif_hooks")]
     crate::verif::yield_point("merge:before_commit");
+    #[cfg(feature = "verif_hooks")]
+    crate::verif::wait_until("vh:blocked", || crate::verif::can_write(&*opts.version_history));
 
     #[expect(clippy::expect_used, reason = "lock is expected to not be poisoned")]
     let mut compaction_state = opts.compaction_state.lock().expect("lock is poisoned");
